@@ -83,8 +83,27 @@ def handleExpo (toks : List String) : Option String := do
     | .error e => some ("ERR " ++ e.name)
   | _ => none
 
+/-- `packs <kind> <oid:version,...>` -> the packages `_create_order_package` builds: `version=o+o+o;...` -/
+def handlePacks (toks : List String) : Option String := do
+  match toks with
+  | ["packs", kind, pend] =>
+    let k ← match kind with
+      | "PLACE" => some PackKind.place | "CANCEL" => some PackKind.cancel | "UPDATE" => some PackKind.update
+      | "REPLACE" => some PackKind.replace | _ => none
+    let ps ← parseList? (fun (s : String) => match s.splitOn ":" with
+      | [o, v] => do
+        let oid ← o.toNat?
+        let ver ← if v = "-" then some none else (parseInt? v).map some
+        some (oid, ver)
+      | _ => none) pend
+    let out := (World.packsOf ps k).map fun vc =>
+      (match vc.1 with | none => "-" | some v => toString v) ++ "=" ++ "+".intercalate (vc.2.map toString)
+    some (if out.isEmpty then "." else ";".intercalate out)
+  | _ => none
+
 def handle (toks : List String) : String :=
   match toks with
+  | "packs" :: _ => (handlePacks toks).getD "bad-op"
   | ["nearest", p] =>
     match parseRat? p with
     | some x => showRat (nearestPrice x)
